@@ -196,10 +196,256 @@ def gate_conventions(ctx):
         ctx.fail("assumption:entangler-matrix", "CX/CZ matrix convention changed", kind="assumption")
 
 
+# ------------------------------------------------------------------------------------------------
+# input-diversity section: the same observable on the FORMS an ordinary angle list / call can take
+# ------------------------------------------------------------------------------------------------
+
+DIVERSITY = {
+    "element types": "python int lists / tuples, numpy int64 / int32 arrays, lists of numpy int scalars (integers whose half-sums are "
+                     "x.5 / x.25 at some level), float lists / tuples, float64 / float32 arrays, lists of numpy float64 / float32 "
+                     "scalars, mixed int-float lists, a strided (non-contiguous) float64 view, negative zeros; the caller's object "
+                     "must be left unchanged",
+    "scale": "one O(1) angle + light tail 1e-3 .. 1e-6 (head first / last / mixed), all-equal, two repeated values, all-negative, a single "
+             "non-zero angle at every position (k <= 2), non-zeros only in the first half / second half / one quarter / odd positions",
+    "phase": "angles exactly +-2 pi, +-4 pi at one position with generic small angles elsewhere (a relative sign between blocks, not a "
+             "global phase), all angles multiples of 2 pi, pairs (x + 2 pi, x - 2 pi) / (2 pi + x, 2 pi - x) whose half-sums / "
+             "half-differences are exactly 2 pi, angles in (2 pi, 4 pi) and below -2 pi",
+    "call forms": "positional / all-keyword arguments, c_gate and last_control left at their defaults, the same angle object used for two "
+                  "consecutive constructions (and for RY then RZ), the circuit appended as an instruction on a permuted, non-ascending "
+                  "wire list of a wider host, two multiplexers in sequence (no-last followed by its reverse_ops partner)",
+    "sizes": "k = 0, 1, 2, 3 for every form; 4, 5 for the type forms",
+}
+ANGLE_FORMS = {
+    "list-float": lambda v: [float(x) for x in v], "tuple-float": lambda v: tuple(float(x) for x in v),
+    "nd-float64": lambda v: np.array(v, dtype=np.float64), "nd-float32": lambda v: np.array(v, dtype=np.float32),
+    "list-np-float64": lambda v: [np.float64(x) for x in v], "list-np-float32": lambda v: [np.float32(x) for x in v],
+    "nd-float64-strided": lambda v: np.array([y for x in v for y in (x, 99.0)], dtype=np.float64)[::2],
+    "list-int": lambda v: [int(x) for x in v], "tuple-int": lambda v: tuple(int(x) for x in v),
+    "nd-int64": lambda v: np.array([int(x) for x in v], dtype=np.int64), "nd-int32": lambda v: np.array([int(x) for x in v], dtype=np.int32),
+    "list-np-int64": lambda v: [np.int64(int(x)) for x in v],
+    "list-mixed": lambda v: [int(x) if float(x).is_integer() and i % 2 == 0 else float(x) for i, x in enumerate(v)],
+}
+FLOAT_FORMS = ("list-float", "tuple-float", "nd-float64", "nd-float32", "list-np-float64", "list-np-float32", "nd-float64-strided")
+INT_FORMS = ("list-int", "tuple-int", "nd-int64", "nd-int32", "list-np-int64", "list-mixed")
+CALL_FORMS = ("positional", "keyword", "defaults", "same-object-twice", "host-permuted")
+
+
+def build_form(axis, ent, raw, last, callform):
+    from qclib.gates.ucr import ucr
+    from qiskit.circuit.library import RYGate, RZGate, CXGate, CZGate
+    R = RYGate if axis == "Y" else RZGate
+    C = CXGate if ent == "CX" else CZGate
+    if callform == "keyword":
+        return ucr(r_gate=R, angles=raw, c_gate=C, last_control=last)
+    if callform == "defaults":
+        if ent == "CX" and last:
+            return ucr(R, raw)
+        if last:
+            return ucr(R, raw, C)
+        return ucr(R, raw, c_gate=C, last_control=False) if ent == "CZ" else ucr(R, raw, last_control=False)
+    if callform == "same-object-twice":
+        from flatten import flatten, to_lines
+        other = RZGate if axis == "Y" else RYGate
+        c0 = ucr(other, raw, CXGate, not last)       # an earlier construction from the SAME object, other axis / flag
+        c1 = ucr(R, raw, C, last)
+        c2 = ucr(R, raw, C, last)
+        if to_lines(flatten(c1)) != to_lines(flatten(c2)) or c0 is None:
+            raise AssertionError("two consecutive constructions from the same angle object give different circuits")
+        return c2
+    return ucr(R, raw, C, last)
+
+
+def form_case(ctx, name, axis, ent, last, vals, form, callform="positional", tie=True, wires=None):
+    """vals: the intended angles; the library gets ANGLE_FORMS[form](vals); the ideal multiplexer is built from
+    np.asarray(raw, dtype=float) computed here"""
+    from flatten import flatten, to_lines
+    from qiskit import QuantumCircuit
+    from qiskit.quantum_info import Operator
+    raw = ANGLE_FORMS[form](vals)
+    angles = [float(x) for x in np.asarray(raw, dtype=float)]
+    k = int(math.log2(len(angles)))
+    h = hash(tuple(angles)) & 0xffffff
+    key = f"ucr:div:{axis}:{ent}:{int(last)}:k={k}:{form}:{callform}:{h:x}"
+    rep = {"call": "qclib.gates.ucr.ucr", "axis": axis, "ent": ent, "last": last, "angles": angles, "div": True, "name": name,
+           "form": form, "callform": callform, "vals": [float(x) for x in vals]}
+    for c in ("diversity:" + name, "diversity:type:" + form, "diversity:call:" + callform):
+        ctx.count(c)
+    before = repr(raw)
+    try:
+        circ = build_form(axis, ent, raw, last, callform)
+    except Exception as e:
+        ctx.fail(key + ":raises", f"{type(e).__name__}: {e}", rep)
+        return
+    if repr(raw) != before:
+        ctx.fail(key + ":input-mutated", "the caller's angle object was modified by ucr()", rep)
+    if tie:
+        ctx.tie({"op": "ucr", "axis": axis, "ent": ent, "k": k, "last": last, "angles": angles}, to_lines(flatten(circ)))
+    if k >= 1 and not last:
+        circ = circ.copy()
+        (circ.cx if ent == "CX" else circ.cz)(k, 0)
+    want = ideal(axis, angles)
+    try:
+        if callform == "host-permuted":
+            w = k + 1
+            if wires is None:
+                wires = ctx.rng.sample(range(w + 2), w)
+                if wires == sorted(wires) and w > 1:
+                    wires = wires[::-1]
+            host = QuantumCircuit(w + 2)
+            host.append(circ.to_instruction(), wires)
+            op = Operator(host).data
+            # the placed ideal: act with `want` on the chosen wires (bit t of the small index <-> host wire wires[t])
+            dim = 2 ** (w + 2)
+            ref = np.zeros((dim, dim), dtype=complex)
+            rest = [q for q in range(w + 2) if q not in wires]
+            for col in range(dim):
+                small = sum(((col >> wires[t]) & 1) << t for t in range(w))
+                keep = col & sum(1 << q for q in rest)
+                for row_s in np.nonzero(want[:, small])[0]:
+                    row = keep | sum(((int(row_s) >> t) & 1) << wires[t] for t in range(w))
+                    ref[row, col] = want[row_s, small]
+            err = float(np.abs(op - ref).max())
+            rep["wires"] = wires
+        else:
+            err = float(np.abs(Operator(circ).data - want).max())
+    except Exception as e:
+        ctx.fail(key + ":raises", f"{type(e).__name__}: {e}", rep)
+        return
+    if not err <= 1e-7:
+        ctx.fail(key, f"max |Operator - ideal| = {err:.3e}", dict(rep, observed_err=err))
+    else:
+        ctx.ok(key, nontrivial=k >= 1, sample={"axis": axis, "ent": ent, "last": last, "k": k, "form": form, "err": err})
+
+
+def sequence_case(ctx, axis, ent, k, a1, a2):
+    """the documented use of last_control=False: a multiplexer without its trailing entangler followed by the reverse_ops of a
+    second one equals the product of the two ideal multiplexers (same axis => angles add)"""
+    from qiskit.quantum_info import Operator
+    ctx.count("diversity:two multiplexers in sequence (no-last, reversed partner)")
+    key = f"ucr:div:sequence:{axis}:{ent}:k={k}:{hash(tuple(a1 + a2)) & 0xffffff:x}"
+    rep = {"call": "qclib.gates.ucr.ucr x2", "sequence": True, "axis": axis, "ent": ent, "a1": a1, "a2": a2}
+    try:
+        c1 = build(axis, ent, a1, False)
+        c2 = build(axis, ent, a2, False).reverse_ops()
+        err = float(np.abs(Operator(c1.compose(c2)).data - ideal(axis, [x + y for x, y in zip(a1, a2)])).max())
+    except Exception as e:
+        ctx.fail(key + ":raises", f"{type(e).__name__}: {e}", rep)
+        return
+    if not err <= 1e-7:
+        ctx.fail(key, f"max |Operator - ideal| = {err:.3e}", dict(rep, observed_err=err))
+    else:
+        ctx.ok(key, nontrivial=k >= 1)
+
+
+CONFIGS = [("Y", "CX", True), ("Y", "CX", False), ("Y", "CZ", True), ("Y", "CZ", False), ("Z", "CX", True), ("Z", "CX", False)]
+
+
+def _diversity_cases(ctx):
+    r = ctx.rng
+    TWO_PI = 2 * math.pi
+    cyc = [0]
+
+    def cfg():
+        cyc[0] += 1
+        return CONFIGS[cyc[0] % 6]
+
+    ccyc = [0]
+
+    def call():
+        ccyc[0] += 1
+        return CALL_FORMS[ccyc[0] % len(CALL_FORMS)]
+
+    def emit(name, vals, forms, every_config=False, callform=None):
+        for f in forms:
+            for (axis, ent, last) in (CONFIGS if every_config else [cfg()]):
+                form_case(ctx, name, axis, ent, last, vals, f, callform or call())
+
+    # ---- 1. element types
+    for k in (0, 1, 2, 3, 4, 5):
+        n = 2 ** k
+        small = k <= 3
+        ints = [r.randint(-9, 9) for _ in range(n)]
+        odd = [1 + 2 * j for j in range(n)]
+        odd_sh = list(odd)
+        r.shuffle(odd_sh)
+        odd_sh[r.randrange(n)] *= -1
+        emit("integer angles", ints, INT_FORMS if small else INT_FORMS[:1] + INT_FORMS[2:3], every_config=k in (1, 2))
+        emit("odd integer angles (half-sums x.5, x.25, ...)", odd_sh, INT_FORMS if small else ("nd-int64", "tuple-int"),
+             every_config=k in (1, 2))
+        flo = [r.uniform(-7, 7) for _ in range(n)]
+        emit("float angles", flo, FLOAT_FORMS if small else ("nd-float64", "nd-float32", "tuple-float"), every_config=k == 1)
+        emit("integral floats", [float(x) for x in odd_sh], ("list-float", "nd-float32", "list-np-float32") if small else ("nd-float32",))
+        nz = [r.choice([-0.0, 0.0, -0.0, r.uniform(-3, 3)]) for _ in range(n)]
+        nz[r.randrange(n)] = -0.0
+        emit("negative zeros", nz, ("list-float", "nd-float64") if small else ("nd-float64",))
+    # ---- 2. scale structure
+    for k in (1, 2, 3, 4):
+        n = 2 ** k
+        for where in ("first", "last", "mixed"):
+            v = [10.0 ** (-3 - 3 * j / max(1, n - 1)) * r.choice([1, -1]) for j in range(n)]
+            v[{"first": 0, "last": n - 1, "mixed": r.randrange(n)}[where]] = r.choice([2.5, -1.7, 3.0])
+            emit("one O(1) angle + light tail 1e-3 .. 1e-6 (" + where + ")", v, ("list-float", "nd-float64"))
+        emit("all angles equal", [0.77] * n, ("list-float",))
+        emit("two exactly repeated values", [[1.1, -0.4][j % 2] for j in range(n)], ("tuple-float",))
+        emit("two exactly repeated values, block-wise", [[1.1, -0.4][(2 * j) // n] for j in range(n)], ("nd-float64",))
+        emit("all angles negative", [-abs(r.uniform(0.1, 6)) for _ in range(n)], ("list-float",))
+        for nm, sup in (("first half", range(n // 2)), ("second half", range(n // 2, n)), ("last quarter", range(n - max(1, n // 4), n)),
+                        ("odd positions", range(1, n, 2))):
+            v = [0.0] * n
+            for j in sup:
+                v[j] = r.uniform(-3, 3)
+            emit("non-zero angles only in the " + nm, v, ("list-float",))
+        if k <= 2:
+            for pos in range(n):
+                v = [0.0] * n
+                v[pos] = r.choice([1.3, -2.1])
+                emit("a single non-zero angle (every position)", v, ("list-float", "list-mixed"))
+        else:
+            v = [0] * n
+            v[r.randrange(n)] = 3
+            emit("a single non-zero angle (every position)", v, ("list-int",))
+    # ---- 3. sign / phase structure: 4 pi periodicity
+    for k in (0, 1, 2, 3):
+        n = 2 ** k
+        for big in (TWO_PI, -TWO_PI, 2 * TWO_PI, -2 * TWO_PI):
+            for pos in sorted({0, n - 1, r.randrange(n)}):
+                v = [r.uniform(-1, 1) for _ in range(n)]
+                v[pos] = big
+                emit("one angle exactly +-2 pi / +-4 pi, generic small angles elsewhere", v, ("list-float",), every_config=(k == 1 and pos == 0))
+                v2 = list(v)
+                v2[pos] = big + 0.3
+                emit("one angle +-2 pi + 0.3 / +-4 pi + 0.3", v2, ("nd-float64",))
+        emit("all angles multiples of 2 pi", [r.choice([0.0, TWO_PI, -TWO_PI, 2 * TWO_PI, -2 * TWO_PI, 3 * TWO_PI, 4 * TWO_PI]) for _ in range(n)],
+             ("list-float", "nd-float64"))
+        emit("all angles exactly 2 pi", [TWO_PI] * n, ("list-float",))
+        emit("all angles exactly -2 pi except one (relative sign)", [-TWO_PI] * (n - 1) + [0.0], ("list-float",))
+        if k >= 1:
+            x = r.uniform(0.2, 1.5)
+            h = n // 2
+            emit("half-sums exactly 2 pi (pairs 2 pi + x, 2 pi - x)", [TWO_PI + x] * h + [TWO_PI - x] * h, ("list-float", "nd-float64"))
+            emit("half-differences exactly 2 pi (pairs x + 2 pi, x - 2 pi)", [x + TWO_PI] * h + [x - TWO_PI] * h, ("list-float",))
+            emit("half-sums exactly 2 pi (pairs 3 pi, pi)", [3 * math.pi, math.pi] * h if k > 1 else [3 * math.pi, math.pi], ("tuple-float",))
+        emit("angles in (2 pi, 4 pi) and below -2 pi", [r.choice([1, -1]) * r.uniform(TWO_PI + 0.1, 2 * TWO_PI - 0.1) if j % 2 == 0
+                                                         else r.uniform(-1, 1) for j in range(n)], ("list-float",))
+    # ---- 4. call forms: every call form x every configuration on k = 0, 1, 2
+    for k in (0, 1, 2):
+        n = 2 ** k
+        for (axis, ent, last) in CONFIGS:
+            for cf in CALL_FORMS:
+                form_case(ctx, "every call form x configuration", axis, ent, last, [r.uniform(-7, 7) for _ in range(n)],
+                          "nd-float64" if (k + len(cf)) % 2 else "list-float", cf)
+    for k in (1, 2, 3):
+        for (axis, ent) in (("Y", "CX"), ("Y", "CZ"), ("Z", "CX")):
+            sequence_case(ctx, axis, ent, k, [r.uniform(-4, 4) for _ in range(2 ** k)], [r.uniform(-4, 4) for _ in range(2 ** k)])
+
+
 def run(ctx, kmax=None):
     gate_conventions(ctx)
+    kmax_given = kmax
     kmax = kmax or (5 if ctx.quick else 7)
     ok_oracle = 5 if ctx.quick else 6
+    if kmax_given is None:
+        _diversity_cases(ctx)
     for k in range(0, kmax + 1):
         for axis, ent in (("Y", "CX"), ("Y", "CZ"), ("Z", "CX")):
             for last in (True, False):
@@ -216,5 +462,12 @@ def search(ctx, hints):
 
 def replay(ctx, payload):
     r = payload["replay"]
+    if r.get("sequence"):
+        sequence_case(ctx, r["axis"], r["ent"], int(math.log2(len(r["a1"]))), r["a1"], r["a2"])
+        return
+    if r.get("div"):
+        form_case(ctx, r.get("name", "replay"), r["axis"], r["ent"], r["last"], r["vals"], r["form"], r.get("callform", "positional"),
+                  tie=False, wires=r.get("wires"))
+        return
     k = int(math.log2(len(r["angles"])))
     check_one(ctx, r["axis"], r["ent"], r["last"], k, r["angles"])
